@@ -824,17 +824,23 @@ evaluate() const {
       return Result(r1.as_integer() ^ r2.as_integer());
 
     case OROR:
+      // The result of a logical operator is a bool (0 or 1), not the value
+      // of the deciding operand.
       if (r1.as_boolean()) {
-        return r1;
-      } else {
+        return Result(1);
+      } else if (r2._type == RT_error) {
         return r2;
+      } else {
+        return Result(r2.as_boolean());
       }
 
     case ANDAND:
-      if (r1.as_boolean()) {
+      if (!r1.as_boolean()) {
+        return Result(0);
+      } else if (r2._type == RT_error) {
         return r2;
       } else {
-        return r1;
+        return Result(r2.as_boolean());
       }
 
     case EQCOMPARE:
